@@ -10,8 +10,8 @@
     [per >= 1] and peer set. uint64 arithmetic is explicit ([two64], [wrap64]);
     [h_height from < two64] and [to < two64] say that these are uint64 values.
     The header type's own Verify [tvp] may also PANIC ([TVPanics]): [GetRangeByHeight_p] is the
-    call with such a verifier (session.processResponses recovers, verifyChunkBoundaries does
-    not); [Verify_p ... = Some None] means "verified without error and without panic". *)
+    call with such a verifier (session.processResponses and verifyChunkBoundaries recover);
+    [Verify_p ... = Some None] means "verified without error and without panic". *)
 From GH Require Import Base.Prelude Model.Verify Model.Session Proofs.SessionP.
 
 (** If the call returns headers they are exactly the heights from+1 .. to-1 in ascending
@@ -50,43 +50,28 @@ Theorem C05_degenerate_is_error :
   GetRangeByHeight_p drift tvp maxcap per from to peers evs = Some (RErr ERangeMixUp).
 Proof. exact degenerate_is_error_p. Qed.
 
-(** No peer answer can crash the client. Full statement:
-      forall tvp ..., to - (from+1) <= maxcap -> GetRangeByHeight_p ... evs <> Some RPanic.
-    It holds for every header type whose own Verify never panics (the recovered decode panic,
-    the unguarded h[0], the prepareRequests(...)[0] of the re-request, chunks[i][0] and
-    prev[len(prev)-1] of the boundary check are all covered) ... *)
-Theorem C05_no_response_can_crash_partial :
-  forall drift tvp maxcap per (from : hdr) (to : N) peers evs,
-  (forall t u, tvp t u <> TVPanics) ->
+(** No peer answer can crash the client: once the call has started, no sequence of answers
+    leads to a panic, whatever the header type's own Verify does with the received headers -
+    including panicking: the recovered decode / Validate / Verify panic while an answer is
+    processed, the recovered panic of the boundary check, the unguarded h[0], the
+    prepareRequests(...)[0] of the re-request, chunks[i][0] and prev[len(prev)-1] are all
+    covered. The premise says the caller's own range fits in a slice ([maxcap] = largest
+    capacity [make] accepts); see [C05_range_beyond_slice_limit]. *)
+Theorem C05_no_response_can_crash :
+  forall drift (tvp : hdr -> hdr -> tvres_p) maxcap per (from : hdr) (to : N) peers evs,
   h_nil from = false -> h_height from < two64 -> to < two64 -> 1 <= per ->
   to - (h_height from + 1) <= maxcap ->
   GetRangeByHeight_p drift tvp maxcap per from to peers evs <> Some RPanic /\
   GetRangeByHeight_p drift tvp maxcap per from to peers evs <> Some RFuel.
 Proof. exact no_response_crashes_p. Qed.
 
-(** ... and for a Verify that may panic every panic while an answer is processed is recovered
-    (the answer counts as failed); the ONLY crash left is a panic of Verify inside
-    verifyChunkBoundaries, which runs outside any recover: with that panic recovered the same
-    run ends with the chain error. *)
-Theorem C05_crash_only_in_boundary_check :
-  forall drift tvp maxcap per (from : hdr) (to : N) peers evs,
-  h_nil from = false -> h_height from < two64 -> to < two64 -> 1 <= per ->
-  to - (h_height from + 1) <= maxcap ->
-  GetRangeByHeight_p drift tvp maxcap per from to peers evs <> Some RFuel /\
-  (GetRangeByHeight_p drift tvp maxcap per from to peers evs = Some RPanic ->
-   GetRangeByHeight drift (recovered tvp) maxcap per from to peers evs = Some (RErr ENotChain)).
-Proof. exact crash_only_in_boundary_check. Qed.
-
-(** known finding 1: an answer that does crash the client. The second sub-request is answered
-    with a chunk whose first header makes the type-level Verify panic only when it is verified
-    against the header directly below it: VerifyRange(from, chunk) verifies it non-adjacently
-    (no panic, accepted), verifyChunkBoundaries verifies it adjacently (panic, not recovered). *)
-Theorem C05_no_response_can_crash_refuted :
-  exists drift tvp maxcap per (from : hdr) (to : N) peers evs,
-    h_nil from = false /\ h_height from < two64 /\ to < two64 /\ 1 <= per /\
-    to - (h_height from + 1) <= maxcap /\
-    GetRangeByHeight_p drift tvp maxcap per from to peers evs = Some RPanic.
-Proof. exact no_response_crashes_refuted. Qed.
+(** every panic of the type-level Verify is recovered: the call behaves exactly as with a
+    verifier that rejects where the original one panics *)
+Theorem C05_verify_panics_are_rejections :
+  forall drift (tvp : hdr -> hdr -> tvres_p) maxcap per (from : hdr) (to : N) peers evs,
+  GetRangeByHeight_p drift tvp maxcap per from to peers evs =
+  GetRangeByHeight drift (recovered tvp) maxcap per from to peers evs.
+Proof. exact outcome_p_eq. Qed.
 
 (** documented limit of the premise above (outside the property: the caller asks for a
     range longer than any slice; prepareRequests / make([]H, 0, amount) panic) *)
@@ -98,7 +83,8 @@ Theorem C05_range_beyond_slice_limit :
 Proof. exact huge_range_panics. Qed.
 
 (** the only errors are: mixed-up range (at once, only for degenerate requests), context
-    ended, exchange stopped, and the broken chain reported by the boundary check *)
+    ended, exchange stopped, and the boundary check ([ENotChain]: a header that does not verify
+    against the one below it, or a recovered panic of that verification) *)
 Theorem C05_errors_have_a_cause :
   forall drift tvp maxcap per (from : hdr) (to : N) peers evs e,
   h_height from < two64 -> to < two64 -> 1 <= per ->
@@ -149,6 +135,19 @@ Example C05_verify_panic_in_chunk_is_recovered :
   = Some (ROk [ex_hdr 11; ex_hdr 12; ex_hdr 13]).
 Proof. vm_compute. reflexivity. Qed.
 
+(** ... and so is a panic in the chunk-boundary check (before 1b6d0f8 it reached the caller):
+    the second chunk starts with a header on which Verify panics only when it is verified
+    against the header directly below it *)
+Example C05_verify_panic_at_boundary_is_an_error :
+  GetRangeByHeight_p 0%Z ex_tvp 100 3 (ex_hdr 10) 17 [0; 1]
+    [EDispatch 0 (Req 11 3); EDispatch 1 (Req 14 3);
+     ERespond 0 5%Z [FHdr (ex_hdr 11); FHdr (ex_hdr 12); FHdr (ex_hdr 13)];
+     ERespond 1 5%Z [FHdr (ex_panic_hdr 14); FHdr (Hdr false 1 15 0%Z 15 999 true); FHdr (Hdr false 1 16 0%Z 16 15 true)]]
+  = Some (RErr ENotChain) /\
+  Verify_p 5%Z 0%Z ex_tvp (ex_hdr 13) (ex_panic_hdr 14) = None /\
+  Verify_p 5%Z 0%Z ex_tvp (ex_hdr 10) (ex_panic_hdr 14) = Some None.
+Proof. repeat split; vm_compute; reflexivity. Qed.
+
 (** from at the largest height: an error at once, also for to > 0 *)
 Example C05_from_at_max_height :
   GetRangeByHeight 0%Z ex_tv 100 3 (Hdr false 1 (two64 - 1) 0%Z 1 0 true) 5 [0; 1] [] = Some (RErr ERangeMixUp).
@@ -157,8 +156,7 @@ Proof. vm_compute. reflexivity. Qed.
 Print Assumptions C05_result_shape.
 Print Assumptions C05_result_verified.
 Print Assumptions C05_degenerate_is_error.
-Print Assumptions C05_no_response_can_crash_partial.
-Print Assumptions C05_crash_only_in_boundary_check.
-Print Assumptions C05_no_response_can_crash_refuted.
+Print Assumptions C05_no_response_can_crash.
+Print Assumptions C05_verify_panics_are_rejections.
 Print Assumptions C05_range_beyond_slice_limit.
 Print Assumptions C05_errors_have_a_cause.
